@@ -1,6 +1,8 @@
 (* C13 — tactic used by the per-run anchor shards (runs/C13/anchors_*.v):
    unfold the closed forms of Spec.v / the R-models of Model.v down to the
-   operations Coq-Interval understands, then `interval` / `integral`. *)
+   operations Coq-Interval understands, then `interval` / `integral`.
+   erfcR is kept folded during cbv (cbv would also normalise the implicit
+   structure arguments of RInt, which `integral` then no longer recognises). *)
 From Coq Require Import Reals ZArith QArith List.
 From Coquelicot Require Import Coquelicot.
 From Interval Require Import Tactic.
@@ -8,4 +10,5 @@ From ADV Require Import Base.Num C13.Model C13.Spec.
 
 Ltac unf :=
   cbv -[Rplus Rminus Rmult Rdiv Ropp Rinv Rabs exp ln sqrt PI IZR Rle Rlt pow RInt
-        atan sin cos tan sinh cosh tanh Rpower].
+        atan sin cos tan sinh cosh tanh Rpower erfcR];
+  unfold erfcR, erfR.
